@@ -28,6 +28,19 @@ def run(c):
                  ((R3, "memory", 1, 1, False, 0, 0, True), {}), ((R3, "memory", 3, 1, True, 2, 1, True), {})]
         scripts = xslib.generate(c, plans, num=c.pick(60, 500))
         scripts = xslib.variants(scripts, c.rng)
+        # directed family (persistent queue, two consumers, retry with a long back-off): request a is exported successfully while
+        # b fails retryably and sits in its back-off when shutdown is requested; ONE storage call of the run is slow, for every
+        # call number in turn -- among them the completion write of a, during which b is dequeued.  b must be stored for the
+        # next start (StoredIsRedelivered), however the writes are scheduled.
+        base = dict(signal="logs", queue="persistent", cap=3, consumers=2, block=False, wfr=False,
+                    batch=dict(on=False, min=0, max=0, sizer="items"), retry=True, retry_fast=False)
+        S = lambda r, n: dict(op="send", req=r, items=n)
+        W = dict(op="wait_idle")
+        for steps in ([S("r1", 1), W, S("r2", 1), W, W, W, dict(op="shutdown")], [S("r1", 1), W, W, S("r2", 2), W, W, W, W, dict(op="shutdown")],
+                      [S("r1", 2), W, S("r2", 1), W, S("r3", 1), W, W, W, dict(op="shutdown")], [S("r1", 1), S("r2", 1), W, W, dict(op="shutdown")]):
+            for outs in (["ok", "transient"], ["ok", "transient", "transient"], ["ok", "ok", "transient"]):
+                for k in range(3, 10):
+                    scripts.append(dict(cfg=dict(base, slow_call=k), steps=steps, outcomes=outs, id="d%d" % len(scripts)))
     c.log("%d scripts" % len(scripts))
     lines = xslib.execute_or_crash(c, binp, scripts, "main")
     if lines is None:
@@ -46,9 +59,15 @@ def run(c):
         tried += 1
         s = byid[v["script"]]
         # re-confirm once, alone (timing-sensitive observations: goroutine census, late pushes)
+        # (a verdict that depends on a race -- which write overtakes which -- may need more than one run alone: up to 3)
         again = dict(s, id="confirm")
-        l2 = xslib.execute(c, binp, [again], "confirm")
-        if not [w for w in xslib.monitor(c, l2, "confirm") if w["clause"] == v["clause"]]:
+        confirmed = False
+        for _ in range(3):
+            l2 = xslib.execute(c, binp, [again], "confirm")
+            if [w for w in xslib.monitor(c, l2, "confirm") if w["clause"] == v["clause"]]:
+                confirmed = True
+                break
+        if not confirmed:
             c.extra["unconfirmed"] = c.extra.get("unconfirmed", 0) + 1
             c.extra.setdefault("unconfirmed_clauses", []).append(v["clause"])
             continue
